@@ -758,6 +758,101 @@ func runConcurrent(k *vf.Case) {
 	}
 	k.C.Count("concurrent_cases", 1)
 	k.C.Sig("concurrent")
+	firstScrapeRounds(k)
+}
+
+// firstScrapeRounds aims at the one moment an exporter has per configuration: its first scrape, when the
+// collector builds target_info and the resource constant labels. Many short-lived exporters with large
+// resources (a wide window) are each scraped for the first time by several goroutines at once.
+func firstScrapeRounds(k *vf.Case) {
+	r := k.R
+	for round := 0; round < 24; round++ {
+		nattr := vf.Pick(r, []int{1, 20, 200, 600})
+		kvs := []attribute.KeyValue{attribute.String("service.name", "svc")}
+		for i := 0; i < nattr; i++ {
+			kvs = append(kvs, attribute.String(fmt.Sprintf("res.attr.%d", i), "v"))
+		}
+		reg := prometheus.NewRegistry()
+		var filter attribute.Filter
+		if r.Bool() {
+			filter = attribute.NewDenyKeysFilter()
+		} else {
+			filter = attribute.NewAllowKeysFilter("service.name", "res.attr.0", "res.attr.7")
+		}
+		exp, err := otelprom.New(otelprom.WithRegisterer(reg), otelprom.WithResourceAsConstantLabels(filter))
+		if err != nil {
+			k.Violate("exporter-constructor-error", "", err.Error(), nil)
+			return
+		}
+		mp := sdkmetric.NewMeterProvider(sdkmetric.WithReader(exp), sdkmetric.WithResource(resource.NewSchemaless(kvs...)))
+		if r.Chance(2, 3) {
+			c, _ := mp.Meter("first").Int64Counter("hits")
+			c.Add(context.Background(), 1)
+		}
+		scrapers := 2 + r.Intn(7)
+		var wg sync.WaitGroup
+		release := make(chan struct{})
+		var mu sync.Mutex
+		var problems []string
+		for s := 0; s < scrapers; s++ {
+			wg.Add(1)
+			go func() {
+				defer wg.Done()
+				defer func() {
+					if rec := recover(); rec != nil {
+						mu.Lock()
+						problems = append(problems, fmt.Sprint("panic: ", rec))
+						mu.Unlock()
+					}
+				}()
+				<-release
+				for i := 0; i < 2; i++ {
+					mfs, err := reg.Gather()
+					if err != nil {
+						mu.Lock()
+						problems = append(problems, "gather: "+err.Error())
+						mu.Unlock()
+					}
+					for _, mf := range mfs {
+						if mf.GetName() == "target_info" || mf.GetName() == "otel_scope_info" {
+							continue
+						}
+						for _, mt := range mf.Metric {
+							found := false
+							for _, lp := range mt.Label {
+								if lp.GetName() == "service_name" || lp.GetName() == "service.name" {
+									found = true
+								}
+							}
+							if !found {
+								mu.Lock()
+								problems = append(problems, "series without the resource constant label: "+mf.GetName())
+								mu.Unlock()
+							}
+						}
+					}
+				}
+			}()
+		}
+		finished, stuck, desc := vf.Watch(60*time.Second, 2*time.Second, func() { close(release); wg.Wait() })
+		if !finished {
+			if stuck {
+				k.Violate("deadlock", "prometheus first scrape", desc, nil)
+			} else {
+				k.C.Inconclusive("first-scrape round did not finish")
+			}
+			return
+		}
+		seen := map[string]bool{}
+		for _, p := range problems {
+			if !seen[p] {
+				k.Violate("concurrent-scrape-problem", "first scrape: "+strings.SplitN(p, ":", 2)[0], p, nil)
+				seen[p] = true
+			}
+		}
+		mp.Shutdown(context.Background())
+		k.C.Count("concurrent_first_scrape_rounds", 1)
+	}
 }
 
 func main() {
